@@ -58,7 +58,7 @@ def run(tier, seed, replay=None):
     M = C.read_obs(m_out)
     ncorpus, dis = 0, 0
     STRUCT = {"1": "pack header", "2": "mirrored header at the end of the pack", "3": "container pack header", "4": "pack locator", "5": "manifest header",
-              "6": "pack info", "7": "content pack header", "8": "cluster tail", "9": "directory pack header", "10": "index header"}
+              "6": "pack info", "7": "content pack header", "8": "cluster tail", "9": "directory pack header", "10": "index header", "11": "entry store tail (property descriptors)"}
     ncanon = [0]
 
     def canon_check(cid, lines, body, what, pinned=False):
